@@ -22,7 +22,7 @@ def run(ctx):
     for op in range(5):
         for (d0, d1) in (dts if op in (2, 3) else sorted(set((a, 1) for a, _ in dts))):
             for init1 in ((1, 0) if op in (2, 3) else (1,)):
-                qs.append(Query('op%d-d%d-%d%s' % (op, d0, d1, '' if init1 else '-uninit'), L, hs, ['OP=%d' % op, 'D0=%d' % d0, 'D1=%d' % d1, 'INIT1=%d' % init1] + nw, unwind=6, timeout=1800 if thorough else 400, backend='cadical',
+                qs.append(Query('op%d-d%d-%d%s' % (op, d0, d1, '' if init1 else '-uninit'), L, hs, ['OP=%d' % op, 'D0=%d' % d0, 'D1=%d' % d1, 'INIT1=%d' % init1] + nw, unwind=6, timeout=1800 if thorough else 900, backend='cadical',
                                 desc='%s: element sizes %d/%d, memory sizes 0..32 bytes at offsets 0..16 of a 64-byte buffer, count/offsets: %s, second handle %s' % (OPS[op], d0, d1, '|x| < 2^59 (listed finding excluded)' if nw else 'all 64-bit values', 'initialised' if init1 else 'NOT initialised')))
     if 'negative-slice-offset' in known:
         qs.append(Query('negslice/known', L, hs, ['OP=4', 'D0=1', 'D1=1', 'INIT1=1', 'NO_WRAP'], unwind=6, timeout=400, backend='cadical', expect='fail', known='key=negative-slice-offset ' + known['negative-slice-offset'], desc='re-confirm listed finding'))
